@@ -86,6 +86,11 @@ fn main() {
                     let shards: usize = arg(&args, "--shards").and_then(|s| s.parse().ok()).unwrap_or(1);
                     r.driver_session(rounds, shard, shards);
                 }
+                "shadow" => {
+                    let shard: usize = arg(&args, "--shard").and_then(|s| s.parse().ok()).unwrap_or(0);
+                    let shards: usize = arg(&args, "--shards").and_then(|s| s.parse().ok()).unwrap_or(1);
+                    r.driver_shadow(rounds, shard, shards);
+                }
                 "enc" => {
                     let shard: usize = arg(&args, "--shard").and_then(|s| s.parse().ok()).unwrap_or(0);
                     let shards: usize = arg(&args, "--shards").and_then(|s| s.parse().ok()).unwrap_or(1);
